@@ -52,6 +52,7 @@ RULE = ('family enc: characters x encodings x contexts as above; family '
         'reading (i.e. a wrong decoding would be visible).')
 ASSUMPTIONS = ['utf-16 bytes carry a BOM (str.encode("utf-16"))']
 CASE_CPU_SECONDS = 120.0
+CASE_CPU_SECONDS_QUICK = 15.0
 
 ENCODINGS = ('utf-8', 'latin-1', 'cp1252', 'utf-16')
 
